@@ -4,8 +4,8 @@ import numpy as np
 from common import Fr, enc_q, dec_q, enc_f, dec_f, same_q, close, rng
 
 LEAN_MODULE = 'PGM.Properties.C14'
-LEAN_EXTRA = ['PGM.Properties.C14B', 'PGM.Properties.C14G']
-TRANSLATORS = ('py2cv',)      # src/mbi/clique_vector.py -> PGM/Generated/CliqueVecG.lean, proved equal to the hand model in C14G
+LEAN_EXTRA = ['PGM.Properties.C14B', 'PGM.Properties.C14G', 'PGM.Properties.C14F']
+TRANSLATORS = ('py2cv', 'py2factor')      # src/mbi/clique_vector.py -> PGM/Generated/CliqueVecG.lean, proved equal to the hand model in C14G
 TRUSTED = ['Lean 4.33 kernel', 'axioms: propext, Classical.choice, Quot.sound',
            'numpy indexing contracts of NdArr (reshape/moveaxis/broadcast_to/reduce/take), exercised per run',
            'hand model PGM/Model/Factor.lean tied to src/mbi/factor.py by this correspondence run',
